@@ -141,3 +141,28 @@ Section Fun.
       end
     end.
 End Fun.
+
+(* ---- what an interface record holds in the allocation ledger besides itself ---- *)
+Definition held_count (s : ist) : nat :=
+  (length (see s) + match icon s with Some _ => 1 | None => 0 end)%nat.
+Definition held_bytes (s : ist) : N :=
+  sz_probe_node * N.of_nat (length (see s)) + match icon s with Some d => N.of_nat (length d) | None => 0 end.
+(* the ledger of world [w] = a base (everything else that is live) + what record [s] holds *)
+Definition ledger_frame (bl : nat) (bb : N) (s : ist) (w : world) : Prop :=
+  w_live w = (bl + held_count s)%nat /\ w_bytes w = bb + held_bytes s.
+
+(* the active mapper, as the property speaks of it *)
+Definition active (s : ist) : option mac := if known s then Some (mreal s) else None.
+
+(* C09: the stored mapper addresses are dead while no mapper is known *)
+Definition norm (s : ist) : ist :=
+  if known s then s else
+  {| see := see s; known := false; mreal := zmac; mapp := zmac; mseq := mseq s; gen_t := gen_t s; gen_q := gen_q s; icon := icon s |}.
+
+(* a history of frames on one interface, pure layer *)
+Fixpoint f_run (ctx : N) (c : pcfg) (g : gcfg) (mtu : N) (s : ist) (bufs : list (list byte)) : ist * list action :=
+  match bufs with
+  | [] => (s, [])
+  | b :: r => let '(s1, a1) := f_step ctx c g mtu s b in
+              let '(s2, a2) := f_run ctx c g mtu s1 r in (s2, a1 ++ a2)
+  end.
